@@ -61,12 +61,24 @@ def run_id(run):
     return (h.get("mode"), h.get("name", h.get("n")))
 
 
-def classify(run):
+def classify(run, bad=None):
     """A specific key for a rejected run: what went wrong for which kind of overlap."""
     head = run[0]
     mode = head.get("mode")
     if mode == "scenario":
-        return "scenario:%s" % head.get("name")
+        key = "scenario:%s" % head.get("name")
+        if bad and bad.get("ev") == "ret" and bad in run:
+            i = run.index(bad)
+            call = run[i - 1] if i and run[i - 1].get("ev") == "call" else {}
+            held = 0
+            for r in run[:i - 1]:
+                if r.get("ev") == "call" and r.get("op") in ("enter", "leave"):
+                    held = 0
+                elif r.get("ev") == "call" and r.get("op") == "write" and r.get("kind") == "P":
+                    held += 1
+            key += ":%s-%s-reports-%s-with-%d-written-since-enter" % (call.get("kind", ""), call.get("op", "?"),
+                                                                     bad.get("res"), held)
+        return key
     for r in run:
         if r.get("ev") == "died":
             m = re.search(r"(panic: [^\n]*|fatal error: [^\n]*)", r.get("output", ""))
@@ -186,7 +198,7 @@ def run_replay(ctx):
                                       0 if sc else 25, False)
     rejected, matched, tstates = ctx.validate_runs("PlayQueue_Trace", recs)
     for rj in rejected:
-        ctx.finding(classify(rj["run"]), "replayed history is not a behaviour of PlayQueue (first unexplained "
+        ctx.finding(classify(rj["run"], rj["bad"]), "replayed history is not a behaviour of PlayQueue (first unexplained "
                     "event: %s)" % json.dumps(rj["bad"]), {"schedule": sc, "first_unexplained": rj["bad"],
                                                           "history": rj["run"]})
     return ctx.finish("model_checking", {
@@ -279,9 +291,9 @@ def run(ctx):
             rejected2.add(again_ids[h["n"]] if h.get("mode") == "sched" else run_id(rj["run"]))
         second_by_key = {}
         for rj in rej2:
-            second_by_key.setdefault(classify(rj["run"]), rj)
+            second_by_key.setdefault(classify(rj["run"], rj["bad"]), rj)
         for rj in rejected:
-            key = classify(rj["run"])
+            key = classify(rj["run"], rj["bad"])
             mode = rj["run"][0].get("mode")
             repro = run_id(rj["run"]) in rejected2 or (mode in ("stress", "burst") and key in second_by_key)
             if not repro:
